@@ -1023,7 +1023,14 @@ def _check(run, replay):
         "do not speak about it",
         "the rendered values of dropped columns are re-evaluated by the runner with the implementation's own formula "
         "strings (eval(v).astype(str)); for appended columns they are checked to be the appended strings",
-        "float quotients max/n, nan/n against the doubles 0.8, 0.75 agree with the integer inequalities for n < 2^50",
+        "float quotients max/n, nan/n against the doubles 0.8, 0.75 agree with the integer inequalities for n < 2^50 "
+        "(theorem C12_float_thresholds, for any monotone rounding with relative error <= 2^-53)",
+        "composed model (C12_emitted_iff / C12_exact_model_sound): numpy's astype(str) is assumed faithful on doubles (equal "
+        "text iff same finite value and zero sign / both nan / same infinity; 'nan' iff nan); the model has exact arithmetic "
+        "(no rounding, no overflow), so it is compared only on columns whose cells are exactly representable and of moderate "
+        "size and where the Q instance answers",
+        "'up to floating-point rounding' is NOT proved (partial clause): validated by differential execution against an "
+        "independent IEEE evaluation; divergent cells are counted",
     ]
     run.trusted += ["tools/translate_presets.py (ast walker, text emission), tools/props/c12.py (generators, IEEE evaluator, "
                     "readings of the names), tools/impl/impl_c12.py (drives the real class)",
